@@ -74,3 +74,33 @@ def _srv(mon, extra_tests=(), **kw):
 
 for _pid, _mon in (('C01', 201), ('C02', 202), ('C03', 203), ('C04', 204), ('C05', 205), ('C06', 206), ('C08', 208), ('C10', 210)):
     PROPS[_pid] = _srv(_mon)
+
+PROPS['C17'] = dict(
+    tests=['TestC17'],
+    # specification (coq/spec/SpecResolv.v) evaluated on what the implementation produced
+    monitor_tags={1710, 1711, 1712, 1720, 1721},
+    panic_is_violation={1701, 1702, 1703},
+    # render is proved equal to the functional specification spec_render (C17_render_is_spec): a disagreement on
+    # 1705/1706 is an environment for which the real binary wrote something else than the specified file
+    spec_equal_tags={1705, 1706},
+    rule='envEntry on every byte value alone/embedded, every UTF-8 boundary sequence (overlong, surrogate, > U+10FFFF, truncated, lone '
+         'continuation) in four contexts, every lead byte >= 0x80 against second bytes at every range boundary (thorough: all 256), and 4 000 / 200 000 '
+         'generated strings (hostnames, hostnames with one injected byte, classic shell/newline/"="/NUL injections, safe-only, metacharacter mixes, '
+         'valid multi-byte runes, boundary sequences glued with continuation bytes, high bytes, empty, 255 random bytes); dumpScriptConf on 1 500 / 40 000 '
+         'interface configurations (nil/4-byte/odd-length addresses and masks, 0-63 DNS entries, MTU and lease incl. 0, negative, > 2^32); 50 / 400 real '
+         'child processes (/usr/bin/env -0) started through Cbhandler plus 4 with a nil configuration; the real psa-dhcpc binary (CGO_ENABLED=0, built from the tree under test) '
+         'run with -syshook in a chroot for 173 / 5 013 environment blocks handed to execve unmodified: one third the real dumpScriptConf output '
+         '(composition), the rest hand-made (valid / broken name-server pieces: empty, trailing newline, embedded space or line, one byte replaced, '
+         'non-ASCII digits; valid / hostile domains; duplicate keys, entries without "=", look-alike keys, value starting with "="). '
+         'Non-trivial = non-empty value / environment; distinct by full case line.',
+    trusted=['lib/client/callback/callback.go (envEntry, dumpScriptConf) and lib/resolvconf/resolvconf.go (Run up to update()) are modelled by hand in '
+             'coq/model/{Sanitize,Resolv}.v; the tie is the differential run; literals (classes, negation/anchoring, replacement, format strings, keys, '
+             'separators) are read from the source by tools/gofacts',
+             'Go regexp/utf8 semantics (rune-wise matching, U+FFFD width 1 for invalid bytes, `$` = end of text) and the Go runtime rule that os.Environ() '
+             'keeps the first of duplicate keys are modelled (Sanitize.rune_width, Resolv.os_environ) and exercised by the run',
+             'net.IP.String()/IPMask.String()/%d results are arbitrary byte strings in the theorems; the formatting model (ifconfig_v4) is only used by the run '
+             'and does not cover 16-byte addresses; dclient.buildNetconfig itself is not executed (the theorems hold for every Ifconfig content)',
+             'an execve environment block cannot carry NUL: NUL reaches envEntry (library and child-process cases) but not the chroot binary'],
+    assumptions=['the hook script receives os.Environ() of the client plus the entries of envEntry/dumpScriptConf and nothing else named PSA_DHCPC_*'],
+    timeout={'quick': 600, 'thorough': 3600},
+)
